@@ -7,6 +7,7 @@ import (
 	"os"
 	"path/filepath"
 	"strings"
+	"time"
 
 	"github.com/B1NARY-GR0UP/originium"
 )
@@ -109,3 +110,5 @@ func mix(seed int64, i int) int64 {
 	z ^= z >> 31
 	return int64(z >> 1)
 }
+
+func runtimeGosched() { time.Sleep(200 * time.Microsecond) }
